@@ -148,6 +148,10 @@ func NewFloatFromString(typ *types.FloatType, s string) (*Float, error) {
 			}
 			f := float128ppc.NewFromBits(a, b)
 			x, nan := f.Big()
+			if nan && a>>63 == 1 && !x.Signbit() {
+				// Store sign of NaN.
+				x.Neg(x)
+			}
 			return &Float{Typ: typ, X: x, NaN: nan}, nil
 		// half (IEEE 754 half precision)
 		case strings.HasPrefix(s, "0xH"):
@@ -445,9 +449,18 @@ func (c *Float) Ident() string {
 		// always represent ppc_fp128 in hexadecimal floating-point notation.
 		const hexPrefix = 'M'
 		if c.NaN {
-			a, b := float128ppc.NaN.Bits()
+			// Canonical quiet NaN in the first double, zero in the second.
+			a, b := uint64(0x7FF8000000000000), uint64(0)
 			if c.X != nil && c.X.Signbit() {
-				a, b = float128ppc.NegNaN.Bits()
+				a |= 1 << 63
+			}
+			return fmt.Sprintf("0x%c%016X%016X", hexPrefix, a, b)
+		}
+		if c.X.IsInf() {
+			// Infinity in the first double, zero in the second.
+			a, b := uint64(0x7FF0000000000000), uint64(0)
+			if c.X.Signbit() {
+				a |= 1 << 63
 			}
 			return fmt.Sprintf("0x%c%016X%016X", hexPrefix, a, b)
 		}
